@@ -277,6 +277,10 @@ def gen_spec(rng, shapes=('fn', 'init', 'new', 'method'), apis=('configurable', 
       kw[2] = None
   if shape == 'new' and npos % 2 == 0:
     spec['base_init'] = True
+  if shape in ('init', 'new') and spec['dflt'] and nkw == 1:
+    # a parameter that happens to be called like a parameter of Gin's own wrappers
+    spec['dflt'][0][0] = 'new_cls'
+    spec['dflt'][0][1] = 'dflt-new_cls'
   if lists and rng.random() < 0.35:
     names = all_named(spec)
     if names:
